@@ -5,12 +5,16 @@ From V Require Import Common.Base JpegLL.JllBits JpegLL.JllHuff JpegLL.JllModel 
   JpegLL.JllProofsBits JpegLL.JllProofsHuff JpegLL.JllProofs JpegLL.JllProofsRT JpegLL.JllProofsT81
   JpegLL.JllProofsCanon.
 
+Section WithTail.
+(* what follows the entropy-coded segment (fixed throughout) *)
+Variable tail : list Z.
+
 (* ---------- the T.81 bit reader ---------- *)
 Definition rep' (s : t81_bitstate) (B : list bool) : Prop :=
-  exists bs tail, snd s = stuff bs ++ tail /\ bytes_ok bs /\ B = fst s ++ bits8 bs.
+  exists bs, snd s = stuff bs ++ tail /\ bytes_ok bs /\ B = fst s ++ bits8 bs.
 
-Lemma rep'_init : forall bs tail, bytes_ok bs -> rep' ([], stuff bs ++ tail) (bits8 bs).
-Proof. intros. exists bs, tail. repeat split; assumption. Qed.
+Lemma rep'_init : forall bs, bytes_ok bs -> rep' ([], stuff bs ++ tail) (bits8 bs).
+Proof. intros. exists bs. repeat split; assumption. Qed.
 
 Lemma bits_of_8_255 : bits_of 8 255 = repeat true 8.
 Proof. reflexivity. Qed.
@@ -18,7 +22,7 @@ Proof. reflexivity. Qed.
 Lemma next_bit_spec : forall s b B, rep' s (b :: B) ->
   exists s', t81_next_bit s = Some (b, s') /\ rep' s' B.
 Proof.
-  intros [cur rest] b B (bs & tail & Hrest & Hbs & HB). cbn [fst snd] in *. unfold t81_next_bit. cbn [fst snd].
+  intros [cur rest] b B (bs & Hrest & Hbs & HB). cbn [fst snd] in *. unfold t81_next_bit. cbn [fst snd].
   destruct cur as [|b0 c].
   - cbn [app] in HB. destruct bs as [|x bs]; [discriminate|].
     inversion Hbs as [|? ? Hx Hbs']; subst.
@@ -26,13 +30,13 @@ Proof.
     destruct (Z.eqb_spec x 255) as [E|E].
     + subst x. cbn [app]. change (0 =? 0) with true. cbv iota.
       rewrite bits_of_8_255 in HB. cbn [repeat app] in HB. apply cons_eq_inv in HB. destruct HB as [Hb HB'].
-      subst b. eexists. split; [reflexivity|]. exists bs, tail. cbn [fst snd]. repeat split; try assumption.
+      subst b. eexists. split; [reflexivity|]. exists bs. cbn [fst snd]. repeat split; try assumption.
     + cbn [app]. destruct (t81_to_bits 8 x) as [|b1 c1] eqn:E8; [discriminate|].
       cbn [app] in HB. apply cons_eq_inv in HB. destruct HB as [Hb HB']. subst b1.
       destruct (Z.eqb_spec x 255); [contradiction|].
-      eexists. split; [reflexivity|]. exists bs, tail. cbn [fst snd]. repeat split; try assumption.
+      eexists. split; [reflexivity|]. exists bs. cbn [fst snd]. repeat split; try assumption.
   - cbn [app] in HB. apply cons_eq_inv in HB. destruct HB as [Hb HB']. subst b0.
-    eexists. split; [reflexivity|]. exists bs, tail. cbn [fst snd]. repeat split; assumption.
+    eexists. split; [reflexivity|]. exists bs. cbn [fst snd]. repeat split; assumption.
 Qed.
 
 Lemma receive_spec' : forall W s acc B, rep' s (W ++ B) ->
@@ -207,5 +211,478 @@ Proof.
       rewrite bval_bits_of, Z2Nat.id by lia. rewrite Z.mul_0_l, Z.add_0_l.
       apply Z.eqb_eq in Hec. rewrite Hec.
       destruct (Z.eqb_spec d (-32768)) as [Ed|Ed]; [|reflexivity].
-      exfalso. subst d. vm_compute in Ecm. injection Ecm as Ecat _. lia.
+      exfalso. assert (cat = 16) by (rewrite Hc3, Ed; reflexivity). lia.
+Qed.
+
+(* ---------- lockstep: scan-order code words against the per-component sliding decoder ------ *)
+Section T81Lock.
+  Variables bits vals : list Z.
+  Hypothesis Hok : t81_table_ok bits vals = true.
+  Variables pred P : Z.
+  Hypothesis Hpred : 1 <= pred <= 7.
+  Hypothesis HP : 2 <= P <= 16.
+  Let E := t81_entries bits vals.
+  Let dflt := 2 ^ (P - 1).
+  Let f := fdiff (ll_pred pred dflt).
+  Let wd' := word bits vals.
+
+  Inductive cs_rel (fl fc : bool) : list t81_comp -> list Z -> list Z -> list Z -> Prop :=
+  | cs_nil : cs_rel fl fc [] [] [] []
+  | cs_cons : forall c cs l a al ls abs als,
+      tc_entries c = E ->
+      (fc = false -> hd 0 (tc_cur c) = l) ->
+      (fl = false -> hd 0 (tc_above c) = a) ->
+      (fl = false -> fc = false -> tc_rc c = al) ->
+      cs_rel fl fc cs ls abs als ->
+      cs_rel fl fc (c :: cs) (l :: ls) (a :: abs) (al :: als).
+
+  Definition upd (c : t81_comp) (x : Z) : t81_comp :=
+    mkT81C (tc_entries c) (tl (tc_above c)) (hd 0 (tc_above c)) (x :: tc_cur c).
+  Fixpoint upds (cs : list t81_comp) (px : list Z) : list t81_comp :=
+    match cs, px with
+    | c :: cs', x :: px' => upd c x :: upds cs' px'
+    | _, _ => []
+    end.
+
+  Lemma t81_px_eq : forall fl fc c l a al, tc_entries c = E ->
+    (fc = false -> hd 0 (tc_cur c) = l) -> (fl = false -> hd 0 (tc_above c) = a) ->
+    (fl = false -> fc = false -> tc_rc c = al) ->
+    t81_px pred P fl fc c = ll_pred pred dflt fl fc l a al.
+  Proof.
+    intros fl fc c l a al _ H1 H2 H3. unfold dflt. rewrite edge_rule_is_t81 by assumption.
+    unfold t81_px. destruct fl, fc; try reflexivity.
+    - rewrite H1 by reflexivity. reflexivity.
+    - rewrite H2 by reflexivity. reflexivity.
+    - rewrite H1, H2, H3 by reflexivity. reflexivity.
+  Qed.
+
+  Lemma read_value_mod : forall d, read_value d mod 65536 = d mod 65536.
+  Proof. intros d. unfold read_value. destruct (Z.eqb_spec d (-32768)) as [->|]; reflexivity. Qed.
+
+  Lemma dec_mcu_ok : forall px cs l a al fl fc s B,
+    cs_rel fl fc cs l a al -> length px = length cs -> Forall (good P) px ->
+    diffs_ok vals (map4 f fl fc l a al px) ->
+    rep' s (concat (map wd' (map4 f fl fc l a al px)) ++ B) ->
+    exists s', t81_dec_mcu pred P fl fc cs s = Some (upds cs px, px, s') /\ rep' s' B.
+  Proof.
+    induction px as [|x px IH]; intros cs l a al fl fc s B Hrel Hlen Hg Hd Hr.
+    - destruct cs; [|discriminate]. cbn [t81_dec_mcu upds]. exists s. split; [reflexivity|].
+      inversion Hrel; subst. cbn in Hr. exact Hr.
+    - destruct cs as [|c cs]; [discriminate|]. inversion Hrel as [|? ? l0 a0 al0 ls abs als He H1 H2 H3 Hrel']; subst.
+      inversion Hg as [|? ? Hx Hg']; subst.
+      cbn [map4 map concat] in Hr, Hd. rewrite <- app_assoc in Hr.
+      inversion Hd as [|? ? [Hd1 Hd2] Hd']; subst.
+      pose proof (table_ok_facts _ _ Hok) as F.
+      cbn [t81_dec_mcu]. rewrite He.
+      destruct (read_diff_spec bits vals _ s _ F Hd1 Hd2 Hr) as (s1 & E1 & Hr1).
+      fold E in E1. rewrite E1.
+      assert (Hx' : (t81_px pred P fl fc c + read_value (f fl fc l0 a0 al0 x)) mod 65536 = x).
+      { rewrite (t81_px_eq fl fc c l0 a0 al0 He H1 H2 H3).
+        rewrite Z.add_mod, read_value_mod, <- Z.add_mod by lia.
+        pose proof (diff_reconstruct P x (ll_pred pred dflt fl fc l0 a0 al0) HP Hx) as Hrc.
+        unfold recon16 in Hrc. change 65535 with (Z.ones 16) in Hrc. rewrite Z.land_ones in Hrc by lia.
+        exact Hrc. }
+      rewrite Hx'.
+      destruct (IH cs ls abs als fl fc s1 B Hrel' ltac:(simpl in Hlen; lia) Hg' Hd' Hr1) as (s2 & E2 & Hr2).
+      rewrite E2. exists s2. split; [|exact Hr2]. cbn [upds]. unfold upd. rewrite He. reflexivity.
+  Qed.
+
+  (* the component states as a function of the position in the line *)
+  Variable c : nat.
+  Definition cst (fl : bool) (prev_rem : list (list Z)) (rcpx : list Z) (done_rev : list (list Z)) (k : nat)
+    : t81_comp :=
+    mkT81C E (if fl then [] else map (comp k) prev_rem) (if fl then 0 else comp k rcpx)
+           (map (comp k) done_rev).
+  Definition csts (fl : bool) (prev_rem : list (list Z)) (rcpx : list Z) (done_rev : list (list Z))
+    : list t81_comp := map (cst fl prev_rem rcpx done_rev) (seq 0 c).
+
+  Lemma cs_rel_seq : forall fl fc g l a al n s0,
+    length l = n -> length a = n -> length al = n ->
+    (forall k, (k < n)%nat ->
+       tc_entries (g (s0 + k)%nat) = E /\
+       (fc = false -> hd 0 (tc_cur (g (s0 + k)%nat)) = nth k l 0) /\
+       (fl = false -> hd 0 (tc_above (g (s0 + k)%nat)) = nth k a 0) /\
+       (fl = false -> fc = false -> tc_rc (g (s0 + k)%nat) = nth k al 0)) ->
+    cs_rel fl fc (map g (seq s0 n)) l a al.
+  Proof.
+    intros fl fc g l a al n. revert l a al. induction n; intros l a al s0 Hl Ha Hal H.
+    - destruct l, a, al; try discriminate. constructor.
+    - destruct l as [|l0 l], a as [|a0 a], al as [|al0 al]; try discriminate.
+      cbn [seq map]. destruct (H 0%nat ltac:(lia)) as (H1 & H2 & H3 & H4). rewrite Nat.add_0_r in *.
+      constructor; try assumption.
+      apply IHn; try (simpl in *; lia).
+      intros k Hk. specialize (H (S k) ltac:(lia)). rewrite Nat.add_succ_r in H. exact H.
+  Qed.
+
+  Lemma upds_seq : forall g px n s0, length px = n ->
+    upds (map g (seq s0 n)) px = map (fun k => upd (g k) (nth (k - s0) px 0)) (seq s0 n).
+  Proof.
+    intros g px n. revert px. induction n; intros px s0 Hl.
+    - destruct px; [reflexivity|discriminate].
+    - destruct px as [|x px]; [discriminate|]. cbn [seq map upds]. f_equal.
+      + rewrite Nat.sub_diag. reflexivity.
+      + rewrite IHn by (simpl in Hl; lia). apply map_ext_in. intros k Hk. apply in_seq in Hk.
+        replace (k - s0)%nat with (S (k - S s0)) by lia. reflexivity.
+  Qed.
+End T81Lock.
+
+Section T81Lines.
+  Variables bits vals : list Z.
+  Hypothesis Hok : t81_table_ok bits vals = true.
+  Variables pred P : Z.
+  Hypothesis Hpred : 1 <= pred <= 7.
+  Hypothesis HP : 2 <= P <= 16.
+  Variable c : nat.
+  Let dflt := 2 ^ (P - 1).
+  Let f := fdiff (ll_pred pred dflt).
+  Let dpx := repeat 0 c.
+  Notation CST := (cst bits vals).
+  Notation CSTS := (csts bits vals c).
+
+  (* one pixel *)
+  Lemma dec_mcu_csts : forall px ab prev' rcpx done_rev fl fc s B,
+    goodpx P c px -> goodpx P c ab -> goodpx P c rcpx -> Forall (goodpx P c) done_rev ->
+    (fc = false -> done_rev <> []) ->
+    let left := hd dpx done_rev in
+    diffs_ok vals (map4 f fl fc left ab rcpx px) ->
+    rep' s (concat (map (word bits vals) (map4 f fl fc left ab rcpx px)) ++ B) ->
+    exists s', t81_dec_mcu pred P fl fc (CSTS fl (ab :: prev') rcpx done_rev) s
+               = Some (CSTS fl prev' ab (px :: done_rev), px, s') /\ rep' s' B.
+  Proof.
+    intros px ab prev' rcpx done_rev fl fc s B [Lpx Gpx] [Lab Gab] [Lrc Grc] Gdone Hfc left Hd Hr.
+    assert (Lleft : length left = c).
+    { unfold left. destruct done_rev as [|p0 dr]; cbn [hd]; [apply repeat_length|].
+      inversion Gdone as [|? ? [Lp _] _]; subst. exact Lp. }
+    destruct (dec_mcu_ok bits vals Hok pred P Hpred HP px (CSTS fl (ab :: prev') rcpx done_rev)
+                left ab rcpx fl fc s B) as (s' & E1 & Hr'); try assumption.
+    - unfold csts. apply (cs_rel_seq bits vals P HP); try assumption.
+      intros k Hk. cbn [Nat.add]. unfold cst. cbn [tc_entries tc_cur tc_above tc_rc].
+      split; [reflexivity|]. split; [|split].
+      + intros Efc. specialize (Hfc Efc). unfold left. destruct done_rev as [|p0 dr]; [contradiction|].
+        reflexivity.
+      + intros Efl. subst fl. reflexivity.
+      + intros Efl _. subst fl. reflexivity.
+    - unfold csts. rewrite map_length, seq_length. exact Lpx.
+    - exists s'. split; [|exact Hr']. rewrite E1. f_equal. f_equal. f_equal.
+      unfold csts. rewrite (upds_seq P HP) by assumption. apply map_ext_in. intros k Hk.
+      rewrite Nat.sub_0_r. unfold upd, cst. cbn [tc_entries tc_cur tc_above tc_rc].
+      destruct fl; reflexivity.
+  Qed.
+
+  (* one line *)
+  Lemma dec_line_csts : forall cur prev rcpx done_rev fl fc s B,
+    length prev = length cur -> Forall (goodpx P c) cur -> Forall (goodpx P c) prev ->
+    goodpx P c rcpx -> Forall (goodpx P c) done_rev ->
+    (fc = false -> done_rev <> []) ->
+    diffs_ok vals (row_map f fl fc (hd dpx done_rev) rcpx prev cur) ->
+    rep' s (concat (map (word bits vals) (row_map f fl fc (hd dpx done_rev) rcpx prev cur)) ++ B) ->
+    exists s' rcf, t81_dec_line (length cur) pred P fl fc (CSTS fl prev rcpx done_rev) s
+                   = Some (CSTS fl [] rcf (rev cur ++ done_rev), concat cur, s') /\ rep' s' B.
+  Proof.
+    induction cur as [|px cur IH]; intros prev rcpx done_rev fl fc s B Hl Gc Gp Grc Gd Hfc Hd Hr.
+    - destruct prev; [|discriminate]. cbn [length t81_dec_line rev app concat].
+      exists s, rcpx. split; [reflexivity|]. cbn in Hr. exact Hr.
+    - destruct prev as [|ab prev]; [discriminate|].
+      inversion Gc; inversion Gp; subst.
+      cbn [row_map] in Hr, Hd. rewrite map_app, concat_app, <- app_assoc in Hr.
+      apply (proj1 (Forall_app _ _ _)) in Hd. destruct Hd as [Hd1 Hd2].
+      destruct (dec_mcu_csts px ab prev rcpx done_rev fl fc s _ ltac:(assumption) ltac:(assumption) Grc Gd Hfc Hd1 Hr)
+        as (s1 & E1 & Hr1).
+      cbn [length t81_dec_line]. rewrite E1.
+      destruct (IH prev ab (px :: done_rev) fl false s1 B) as (s2 & rcf & E2 & Hr2); try assumption.
+      + simpl in Hl. lia.
+      + constructor; assumption.
+      + intros _. discriminate.
+      + rewrite E2. exists s2, rcf. split; [|exact Hr2]. cbn [rev concat]. rewrite <- !app_assoc. reflexivity.
+  Qed.
+
+  Lemma next_line_csts : forall fl rcf row,
+    map t81_next_line (CSTS fl [] rcf (rev row)) = CSTS false row dpx [].
+  Proof.
+    intros fl rcf row. unfold csts. rewrite map_map. apply map_ext_in. intros k Hk. apply in_seq in Hk.
+    unfold t81_next_line, cst. cbn [tc_entries tc_cur]. rewrite <- map_rev, rev_involutive.
+    f_equal. unfold comp, dpx. symmetry. apply nth_repeat.
+  Qed.
+
+  Lemma csts_first_line : forall prev prev' rcpx rcpx', CSTS true prev rcpx [] = CSTS true prev' rcpx' [].
+  Proof. reflexivity. Qed.
+
+  (* all lines *)
+  Lemma dec_lines_csts : forall rows prev fl w s B,
+    Forall (fun r => length r = w /\ Forall (goodpx P c) r) rows ->
+    length prev = w -> Forall (goodpx P c) prev ->
+    diffs_ok vals (rows_map f fl dpx prev rows) ->
+    rep' s (concat (map (word bits vals) (rows_map f fl dpx prev rows)) ++ B) ->
+    exists s', t81_dec_lines (length rows) w pred P fl (CSTS fl prev dpx []) s
+               = Some (concat (concat rows), s') /\ rep' s' B.
+  Proof.
+    induction rows as [|row rows IH]; intros prev fl w s B Gr Lp Gp Hd Hr.
+    - cbn [length t81_dec_lines concat]. exists s. split; [reflexivity|]. cbn in Hr. exact Hr.
+    - inversion Gr as [|? ? [Lr Grr] Gr']; subst.
+      cbn [rows_map] in Hr, Hd. rewrite map_app, concat_app, <- app_assoc in Hr.
+      apply (proj1 (Forall_app _ _ _)) in Hd. destruct Hd as [Hd1 Hd2].
+      assert (Gdpx : goodpx P c dpx) by (apply repeat_goodpx; lia).
+      destruct (dec_line_csts row prev dpx [] fl true s _ ltac:(lia) Grr Gp Gdpx ltac:(constructor)
+                  ltac:(intros; discriminate) Hd1 Hr) as (s1 & rcf & E1 & Hr1).
+      cbn [length t81_dec_lines]. rewrite <- Lr. rewrite <- Lr in Gr'. rewrite E1.
+      rewrite app_nil_r. rewrite next_line_csts.
+      destruct (IH row false (length row) s1 B Gr' eq_refl Grr Hd2 Hr1) as (s2 & E2 & Hr2).
+      rewrite E2. exists s2. split; [|exact Hr2]. cbn [concat]. rewrite concat_app. reflexivity.
+  Qed.
+End T81Lines.
+
+End WithTail.
+
+(* ---------- the T.81 marker parser on the stream layout of the encoders ---------- *)
+Lemma t81_marker_ok : forall m rest, 0 <= m < 255 -> t81_marker (255 :: m :: rest) false = Some (m, rest).
+Proof.
+  intros m rest Hm. cbn [t81_marker]. change (255 =? 255) with true. cbv iota.
+  destruct (Z.eqb_spec m 255); [lia|]. reflexivity.
+Qed.
+
+Lemma t81_payload_ok : forall data rest, zlen data + 2 < 65536 ->
+  t81_payload (be16 (wrapU 16 (zlen data + 2)) ++ data ++ rest) = Some (data, rest).
+Proof.
+  intros data rest H. unfold zlen in *.
+  rewrite wrapU_small by (change (2 ^ 16) with 65536; lia).
+  unfold be16. cbn [app t81_payload].
+  destruct (be16_val (Z.of_nat (length data) + 2) ltac:(lia)) as (_ & E & _).
+  replace (256 * byte_of (Z.shiftr (Z.of_nat (length data) + 2) 8) + byte_of (Z.of_nat (length data) + 2) - 2)
+    with (Z.of_nat (length data)) by lia.
+  destruct (Z.leb_spec 0 (Z.of_nat (length data))); [|lia].
+  destruct (Z.leb_spec (Z.of_nat (length data)) (Z.of_nat (length (data ++ rest)))) as [_|Hbad].
+  - cbn [andb]. rewrite Nat2Z.id, firstn_len_app, skipn_len_app. reflexivity.
+  - rewrite app_length in Hbad. lia.
+Qed.
+
+Lemma t81_segments_step : forall f m data rest h, 0 <= m < 255 -> zlen data + 2 < 65536 ->
+  t81_segments (S f) (255 :: m :: be16 (wrapU 16 (zlen data + 2)) ++ data ++ rest) h =
+  if m =? 196 then
+    match t81_parse_dht (length data) data (th_tabs h) with
+    | None => None
+    | Some tabs => t81_segments f rest (mkT81H tabs (th_frame h))
+    end
+  else if m =? 195 then
+    match th_frame h, t81_parse_sof3 data with
+    | None, Some fr => t81_segments f rest (mkT81H (th_tabs h) (Some fr))
+    | _, _ => None
+    end
+  else if m =? 218 then t81_decode_scan h data rest
+  else if ((224 <=? m) && (m <=? 239)) || (m =? 254) || (m =? 219) || (m =? 204) then t81_segments f rest h
+  else if m =? 221 then match data with [0; 0] => t81_segments f rest h | _ => None end
+  else None.
+Proof.
+  intros f m data rest h Hm Hl. cbn [t81_segments]. rewrite t81_marker_ok by assumption.
+  rewrite t81_payload_ok by assumption. reflexivity.
+Qed.
+
+Lemma t81_parse_sof3_ok : forall w h comps P,
+  1 <= w <= 65535 -> 1 <= h <= 65535 -> comps = 1 \/ comps = 3 -> 2 <= P <= 16 ->
+  t81_parse_sof3 (sof3_data w h comps P) =
+  Some (P, h, w, if comps =? 1 then [1] else [1; 2; 3]).
+Proof.
+  intros w h comps P Hw Hh Hc HP. unfold sof3_data. cbn [app t81_parse_sof3].
+  rewrite (byte_of_small P) by lia. rewrite (byte_of_small comps) by lia.
+  destruct (be16_val h ltac:(lia)) as (_ & Eh & _). destruct (be16_val w ltac:(lia)) as (_ & Ew & _).
+  replace (256 * byte_of (Z.shiftr h 8) + byte_of h) with h by lia.
+  replace (256 * byte_of (Z.shiftr w 8) + byte_of w) with w by lia.
+  destruct (Z.leb_spec 2 P); [|lia]. destruct (Z.leb_spec P 16); [|lia].
+  destruct (Z.leb_spec 1 h); [|lia]. destruct (Z.leb_spec 1 w); [|lia]. cbn [andb].
+  destruct Hc; subst comps; reflexivity.
+Qed.
+
+Lemma t81_parse_dht_ok : forall bits vals tabs, t81_table_ok bits vals = true ->
+  t81_parse_dht (length (0 :: bits ++ vals)) (0 :: bits ++ vals) tabs =
+  Some ((0, t81_entries bits vals) :: tabs).
+Proof.
+  intros bits vals tabs Hok. pose proof (table_ok_facts _ _ Hok) as [Fl Fb Fs Fv Fn Ff].
+  cbn [length t81_parse_dht]. change (0 / 16) with 0. change (0 mod 16) with 0.
+  rewrite <- Fl. rewrite firstn_len_app, skipn_len_app.
+  change (fold_right Z.add 0 bits) with (zsum bits). rewrite Fs. unfold zlen. rewrite Nat2Z.id, firstn_all, skipn_all.
+  change (0 <=? 1) with true. change (0 <=? 3) with true. cbn [andb].
+  rewrite Fl, !Nat.eqb_refl, Hok. cbn [andb negb]. change (0 =? 0) with true. cbv iota.
+  destruct (length (bits ++ vals)); reflexivity.
+Qed.
+
+Lemma t81_parse_sos_ok : forall comps pred, comps = 1 \/ comps = 3 -> 1 <= pred <= 7 ->
+  t81_parse_sos (sos_data comps pred) (if comps =? 1 then [1] else [1; 2; 3]) =
+  Some (pred, repeat 0 (Z.to_nat comps)).
+Proof.
+  intros comps pred Hc Hp. unfold sos_data. rewrite (byte_of_small pred) by lia.
+  assert (E1 : (1 <=? pred) = true) by (apply Z.leb_le; lia).
+  assert (E2 : (pred <=? 7) = true) by (apply Z.leb_le; lia).
+  destruct Hc; subst comps;
+    [change (Z.to_nat 1) with 1%nat | change (Z.to_nat 3) with 3%nat];
+    cbn [seqZ flat_map app t81_parse_sos Z.eqb Pos.eqb length];
+    vm_compute (firstn _ _); vm_compute (skipn _ _); cbv iota; rewrite E1, E2; vm_compute; reflexivity.
+Qed.
+
+(* ---------- sample bytes ---------- *)
+Lemma t81_sample_bytes_eq : forall P v, 2 <= P <= 16 -> 0 <= v < 2 ^ P ->
+  t81_sample_bytes P v = sample_bytes P v.
+Proof.
+  intros P v HP Hv. unfold t81_sample_bytes, sample_bytes.
+  assert (H16 : 2 ^ P <= 2 ^ 16) by (apply Z.pow_le_mono_r; lia). change (2 ^ 16) with 65536 in H16.
+  destruct (Z.leb_spec P 8).
+  - assert (2 ^ P <= 2 ^ 8) by (apply Z.pow_le_mono_r; lia). change (2 ^ 8) with 256 in *.
+    rewrite byte_of_small by lia. reflexivity.
+  - rewrite !byte_of_mod. rewrite Z.shiftr_div_pow2 by lia. change (2 ^ 8) with 256.
+    rewrite (Z.mod_small (v / 256)); [reflexivity|].
+    split; [apply Z.div_pos; lia | apply Z.div_lt_upper_bound; lia].
+Qed.
+
+Lemma sample_bytes_all : forall P l, 2 <= P <= 16 -> Forall (good P) l ->
+  flat_map (t81_sample_bytes P) l = flat_map (sample_bytes P) l.
+Proof.
+  intros P l HP Hg. induction Hg as [|v l Hv Hg IH]; [reflexivity|]. cbn [flat_map]. rewrite IH.
+  rewrite (t81_sample_bytes_eq P v HP Hv). reflexivity.
+Qed.
+
+Lemma t81_expect_eoi_ok : t81_expect_eoi [255; 217] false = true.
+Proof. reflexivity. Qed.
+
+
+(* ---------- t81_decode on the stream layout ---------- *)
+Theorem t81_decode_stream_of : forall w h comps P pred pixels bits vals,
+  wf_image w h comps P pixels -> 1 <= pred <= 7 ->
+  t81_table_ok bits vals = true ->
+  covers vals (ll_diffs w comps P pred (pixels_to_rows w h comps P pixels)) ->
+  t81_decode (stream_of w h comps P pred (ll_diffs w comps P pred (pixels_to_rows w h comps P pixels)) bits vals)
+  = Some (pixels, w, h, comps, P).
+Proof.
+  intros w h comps P pred pixels bits vals Hwf Hpred Hok Hcov.
+  pose proof (table_ok_facts _ _ Hok) as F.
+  pose proof Hwf as (Hw & Hh & Hc & HP & Hl & Hb & Hs).
+  destruct (rows_facts w h comps P pixels Hwf) as (Hlen & Hrows & Hback).
+  set (rows := pixels_to_rows w h comps P pixels) in *.
+  set (diffs := ll_diffs w comps P pred rows) in *.
+  set (c := Z.to_nat comps) in *.
+  assert (Ediffs : diffs = rows_map (fdiff (ll_pred pred (2 ^ (P - 1)))) true (repeat 0 c)
+                             (repeat (repeat 0 c) (Z.to_nat w)) rows)
+    by (unfold diffs; apply ll_diffs_rows_map).
+  assert (Hdok : diffs_ok vals diffs).
+  { unfold diffs_ok. apply Forall_forall. intros d Hd. split.
+    - revert d Hd. apply Forall_forall. rewrite Ediffs. apply rows_map_Forall.
+      intros. apply narrow16_range.
+    - apply (proj1 (Forall_forall _ _) Hcov). assumption. }
+  unfold stream_of. rewrite (enc_syms_emit bits vals diffs w_init [] F Hdok winv_init).
+  destruct (emit_stuff_pad (map (word bits vals) diffs) []) as (bs & pad & E1 & E2 & E3 & E4); [simpl; lia|].
+  rewrite E1. cbn [app] in E3.
+  (* SOI and the segment loop *)
+  change (be16 M_SOI) with [255; 216]. change (be16 M_EOI) with [255; 217].
+  cbn [app t81_decode length].
+  match goal with |- context [t81_segments _ ?r _] => set (rest := r) end.
+  assert (Hfuel : exists f, length rest = S (S f)).
+  { unfold rest. rewrite app_length. pose proof (segment_length M_APP0 jfif_payload).
+    destruct (length (segment M_APP0 jfif_payload)) as [|[|n]]; try lia. eexists. reflexivity. }
+  destruct Hfuel as [f Hf]. rewrite Hf. unfold rest.
+  (* APP0 *)
+  rewrite (segment_shape M_APP0). change (byte_of (Z.shiftr M_APP0 8)) with 255. change (byte_of M_APP0) with 224.
+  rewrite t81_segments_step by first [lia | vm_compute; reflexivity].
+  change (224 =? 196) with false. change (224 =? 195) with false. change (224 =? 218) with false.
+  change ((224 <=? 224) && (224 <=? 239)) with true. cbn [orb]. cbv iota.
+  (* SOF3 *)
+  rewrite (segment_shape M_SOF3). change (byte_of (Z.shiftr M_SOF3 8)) with 255. change (byte_of M_SOF3) with 195.
+  rewrite t81_segments_step by first [lia | rewrite sof3_len by assumption; lia].
+  change (195 =? 196) with false. change (195 =? 195) with true. cbv iota. cbn [th_frame th_tabs].
+  rewrite t81_parse_sof3_ok by assumption.
+  (* DHT *)
+  rewrite dht_data_ok by assumption.
+  rewrite (segment_shape M_DHT). change (byte_of (Z.shiftr M_DHT 8)) with 255. change (byte_of M_DHT) with 196.
+  rewrite t81_segments_step by first [lia | apply dht_len; assumption].
+  change (196 =? 196) with true. cbv iota. cbn [th_frame th_tabs].
+  rewrite t81_parse_dht_ok by assumption.
+  (* SOS *)
+  rewrite (segment_shape M_SOS). change (byte_of (Z.shiftr M_SOS 8)) with 255. change (byte_of M_SOS) with 218.
+  rewrite t81_segments_step by first [lia | rewrite sos_len by assumption; lia].
+  change (218 =? 196) with false. change (218 =? 195) with false. change (218 =? 218) with true. cbv iota.
+  (* the scan *)
+  unfold t81_decode_scan. cbn [th_frame th_tabs].
+  rewrite t81_parse_sos_ok by assumption. fold c.
+  assert (Hcomps : map (fun td : Z => match t81_assoc [(0, t81_entries bits vals)] td with
+                                      | Some e => Some (mkT81C e [] 0 [])
+                                      | None => None end) (repeat 0 c)
+                   = map Some (csts bits vals c true [] [] [])).
+  { unfold c, csts. destruct Hc; subst comps; reflexivity. }
+  rewrite Hcomps.
+  assert (Hall : forallb (fun c0 : option t81_comp => match c0 with Some _ => true | None => false end)
+                         (map Some (csts bits vals c true [] [] [])) = true).
+  { apply forallb_forall. intros x Hx. apply in_map_iff in Hx. destruct Hx as (y & <- & _). reflexivity. }
+  rewrite Hall.
+  assert (Hfm : flat_map (fun c0 : option t81_comp => match c0 with Some x => [x] | None => [] end)
+                         (map Some (csts bits vals c true [] [] [])) = csts bits vals c true [] [] []).
+  { generalize (csts bits vals c true [] [] []). induction l; [reflexivity|]. cbn [map flat_map app]. rewrite IHl. reflexivity. }
+  rewrite Hfm.
+  destruct (dec_lines_csts [255; 217] bits vals Hok pred P Hpred HP c rows
+              (repeat (repeat 0 c) (Z.to_nat w)) true (Z.to_nat w) ([], stuff bs ++ [255; 217]) pad)
+    as (s' & Edec & Hr').
+  - exact Hrows.
+  - apply repeat_length.
+  - apply Forall_forall. intros x Hx. apply repeat_spec in Hx. subst x. apply repeat_goodpx. lia.
+  - rewrite <- Ediffs. exact Hdok.
+  - rewrite <- Ediffs. rewrite <- E3. apply rep'_init. exact E2.
+  - rewrite Hlen in Edec.
+    rewrite (csts_first_line bits vals c _ [] _ []) in Edec. rewrite Edec.
+    (* after the last sample only padding is left: the remaining bytes are the EOI marker *)
+    destruct Hr' as (bs' & Hrest & Hbs' & Hpad).
+    destruct s' as [cur rest']. cbn [fst snd] in *.
+    assert (Hbs0 : bs' = []).
+    { destruct bs' as [|x bs'']; [reflexivity|]. exfalso.
+      apply (f_equal (@length bool)) in Hpad. rewrite app_length, bits8_length in Hpad. cbn [length] in Hpad. lia. }
+    subst bs'. cbn [stuff flat_map app] in Hrest. rewrite Hrest. rewrite t81_expect_eoi_ok.
+    f_equal.
+    assert (Hbytes : flat_map (t81_sample_bytes P) (concat (concat rows)) = pixels).
+    { rewrite <- Hback. unfold rows_to_pixels.
+      assert (Hg : Forall (good P) (concat (concat rows))).
+      { apply Forall_forall. intros v Hv. apply in_concat in Hv. destruct Hv as (px & Hpx & Hv).
+        apply in_concat in Hpx. destruct Hpx as (row & Hrow & Hpx).
+        apply (proj1 (Forall_forall _ _) Hrows) in Hrow. destruct Hrow as [_ Hrow].
+        apply (proj1 (Forall_forall _ _) Hrow) in Hpx. destruct Hpx as [_ Hpx].
+        apply (proj1 (Forall_forall _ _) Hpx). assumption. }
+      apply sample_bytes_all; assumption. }
+    rewrite Hbytes.
+    destruct Hc; subst comps; reflexivity.
+Qed.
+
+(* C13, first sentence, in the model world: the independent T.81 Annex H decoder returns the
+   source image from the stream of lossless.Encode, for every predictor 1..7 and automatic
+   selection, and from the stream of lossless14sv1.Encode. *)
+Theorem t81_decodes_jll : forall w h comps P pred pixels s,
+  wf_image w h comps P pixels -> 0 <= pred <= 7 ->
+  table_hyp (ll_diffs w comps P (effective_pred w h comps P pred pixels) (pixels_to_rows w h comps P pixels)) ->
+  jll_encode w h comps P pred pixels = Ok s ->
+  t81_decode s = Some (pixels, w, h, comps, P).
+Proof.
+  intros w h comps P pred pixels s Hwf Hpred (bits & vals & Hopt & Hok & Hcov) Henc.
+  rewrite (jll_encode_fwd _ _ _ _ _ _ Hwf Hpred) in Henc.
+  assert (Hep : 1 <= effective_pred w h comps P pred pixels <= 7).
+  { unfold effective_pred. destruct (Z.eqb_spec pred 0); [apply select_best_range | lia]. }
+  pose proof (encode_stream_fwd w h comps P (effective_pred w h comps P pred pixels) _ bits vals Hopt) as Hf. rewrite Henc in Hf.
+  rewrite (lookup_ok_facts bits vals (table_ok_facts _ _ Hok)) in Hf. apply Ok_inj in Hf. subst s.
+  apply t81_decode_stream_of; assumption.
+Qed.
+
+Theorem t81_decodes_sv1 : forall w h comps P pixels s,
+  wf_image w h comps P pixels ->
+  table_hyp (sv1_diffs w comps P (pixels_to_rows w h comps P pixels)) ->
+  sv1_encode w h comps P pixels = Ok s ->
+  t81_decode s = Some (pixels, w, h, comps, P).
+Proof.
+  intros w h comps P pixels s Hwf Hth Henc.
+  rewrite (sv1_encode_is_pred1 _ _ _ _ _ Hwf) in Henc. rewrite sv1_diffs_eq in Hth.
+  apply (t81_decodes_jll w h comps P 1 pixels s Hwf); [lia | exact Hth | exact Henc].
+Qed.
+
+(* the independent codec is self-consistent in this configuration: decoder after encoder *)
+Theorem t81_roundtrip_partial : forall w h comps P pred pixels bits vals s,
+  wf_image w h comps P pixels -> 1 <= pred <= 7 ->
+  t81_table_ok bits vals = true ->
+  covers vals (ll_diffs w comps P pred (pixels_to_rows w h comps P pixels)) ->
+  t81_encode pred (repeat 0 (Z.to_nat comps)) [(0, (bits, vals))] true [(224, jfif_payload)]
+             w h comps P pixels = Some s ->
+  t81_decode s = Some (pixels, w, h, comps, P).
+Proof.
+  intros w h comps P pred pixels bits vals s Hwf Hpred Hok Hcov Henc.
+  rewrite (t81_encode_stream_of _ _ _ _ _ _ _ _ Hwf Hpred Hok Hcov) in Henc.
+  injection Henc as Hs. subst s. apply t81_decode_stream_of; assumption.
 Qed.
